@@ -136,11 +136,11 @@ def transformM (b : Basis α) (m : Mat 4 4 α) (rho : Jones α) : Jones α :=
   convertStokesC b (Mat.mulVec mc (complexCoherency b rho))
 
 /-- `polar(d,h,u,J)` with the complex and real square roots as leaves -/
-def polar (csqrt : Cx α → R (Cx α)) (sqrtFn : α → R α) (j : Jones α) :
+def polar (csqrt : Cx α → R (Cx α)) (sqrtFn : α → R α) (o : Quat.OrdLeaves α) (j : Jones α) :
     R (Cx α × Quat α × Quat α) := do
   let d ← csqrt j.det
   let j1 ← j.sdivC d
-  let h ← Quat.sqrtH sqrtFn (Quat.realQ (toHermitian (j1 * j1.herm)))
+  let h ← Quat.sqrtH sqrtFn o (Quat.realQ (toHermitian (j1 * j1.herm)))
   let hi ← Quat.invHR h
   let j2 := convertHR hi * j1
   pure (d, h, Quat.realQ (toUnitary j2))
